@@ -555,6 +555,10 @@ func c08Gen(r *Rand, tier string) []string {
 	// gets pairs whose difference (sum, product) is not an int64
 	wide, wideInf := c08SpanGen(sub(0x7370616e), tier)
 	out = append(out, wide...)
+	// 3h. deep and long templates (the recursion of Compile, of the formula parser and of the evaluation), NUL and
+	// invalid UTF-8 at every level; 3i. adversarial JSON through the real {json} (gjson is outside the model)
+	out = append(out, c08DeepGen(sub(0x64656570), tier)...)
+	out = append(out, c08JsonGen(sub(0x6a736f6e), tier)...)
 	// 4. the family generators (boundary values per helper)
 	for _, gen := range exprGens {
 		cases := c08SafeGen(gen, NewRand(r.U64()))
@@ -994,4 +998,115 @@ func init() {
 		return
 	}
 	Register("C08", &Prop{Gen: c08Gen, Run: c08Run, Stats: c08Stats, Timeout: 10 * time.Second})
+}
+
+// c08DeepGen: templates whose nesting depth / length / argument count is large (the cost of Compile is quadratic in
+// the depth - known finding `quadratic-nesting` -, so the depths stay where a run takes milliseconds), with NUL
+// bytes and invalid UTF-8 at the innermost and at every level.
+func c08DeepGen(r *Rand, tier string) []string {
+	var out []string
+	add := func(t string, el []string) {
+		out = append(out, ExprCase(r.Bool(), t, el, []string{"k", "v"}))
+	}
+	rep := strings.Repeat
+	depths := []int{2, 10, 40, 120}
+	longs := []int{100, 3000}
+	if tier == "thorough" {
+		depths = append(depths, 300)
+		longs = append(longs, 30000)
+	}
+	inner := []string{"x", "{0}", "{k}", "\x00", "\xff\xfe", "\"\x00\"", "{\x00}", "{9223372036854775807}", "\\", "{", ""}
+	for _, d := range depths {
+		for _, in := range inner {
+			if tier != "thorough" && d > 10 && r.Chance(1, 2) {
+				continue
+			}
+			el := []string{Pick(r, []string{"v", "", "\x00", "\xff"})}
+			add(rep("{coalesce ", d)+in+rep("}", d), el)
+			add(rep("{if 1 ", d)+in+rep("}", d), el)
+			add(rep("{@len ", d)+in+rep("}", d), el)
+			add(rep("{sumi 1 ", d)+in+rep("}", d), el)
+			add(rep("{"+Pick(r, []string{"upper", "not", "@", "$", "hi", "\x00", "\xff"})+" ", d)+in+rep("}", d), el)
+			add("{! "+rep("(", d)+"[0]+"+in+rep(")", d)+"}", []string{"3"})
+			add("{! "+rep(Pick(r, []string{"-", "!", "abs(", "-("}), d)+"1}", nil)
+			add(rep("{coalesce \x00 ", d)+in+rep("}", d), el)
+			add(rep("{@map {@ a b} \"", 1)+rep("{coalesce ", d)+"{0}"+rep("}", d)+"\"}", el)
+		}
+	}
+	for _, n := range longs {
+		el := []string{"v"}
+		add(rep("{", n)+"0"+rep("}", n), el)
+		add(rep("{", n), el)
+		add(rep("}", n), el)
+		add(rep("{}", n), el)
+		add(rep("a{0}", n), el)
+		add(rep("\x00", n), el)
+		add(rep("\xff", n), el)
+		add(rep("\\", n), el)
+		add(rep("\\", n+1), el)
+		add("{coalesce "+rep("\"", n)+"}", el)
+		add("{coalesce "+rep("\"", n+1)+"}", el)
+		add("{coalesce"+rep(" {0}", n)+"}", el)
+		add("{sumi"+rep(" 1", n)+"}", el)
+		add("{sumi 1 "+rep("9", n)+"}", el)
+		add("{"+rep("9", n)+"}", el)
+		add("{-"+rep("9", n)+"}", el)
+		add("{"+rep("k", n)+"}", el)
+		add("{! 1"+rep("+1", n)+"}", el)
+		add("{! "+rep("9", n)+"}", el)
+		add("{! ["+rep("9", n)+"]}", el)
+		add("{@ "+rep("a ", n)+"}", el)
+		add("{@len {@split {0} \"\"}}", []string{rep("ab", n)})
+		add("{len {0}}", []string{rep("\x00\xff", n)})
+		add("{"+rep("f", n)+" 1}", el)
+	}
+	return out
+}
+
+// c08JsonGen: documents and paths gjson has to survive (deep nesting, open containers, huge numbers, invalid
+// UTF-8, truncated strings and escapes, NUL, many keys; queries, modifiers, wildcards, runs of separators).  The
+// model answers `unmodelled json`, so the oracle is "the real code returned" within the harness timeout.
+// (`@pretty` on deep nesting is left out: its output is quadratic in the depth by definition.)
+func c08JsonGen(r *Rand, tier string) []string {
+	rep := strings.Repeat
+	deep, many := 1500, 3000
+	docs := []string{
+		rep("[", deep) + rep("]", deep), rep("[", deep), rep(`{"a":`, deep) + "1" + rep("}", deep), rep(`{"a":`, deep),
+		`{"a":` + rep("9", 4000) + `}`, `{"a":1e999999999}`, `{"a":-1e-999999999,"b":-0,"c":0x10,"d":NaN}`,
+		"{\"a\":\"\xff\xfe\xc0\x80\",\"\xff\":1}", `{"a":"abc`, `{"a":[1,2,`, `{"a":"\u12`, `{"a":"\`, `{"a":"` + rep(`\ud800`, 500) + `"}`,
+		"{\"a\":\"x\x00y\"}", "{" + rep(`"k":1,`, many) + `"a":2}`, `{"a":[` + rep("1,", many) + `1]}`, `{"a":[{"b":1},{"b":2,"c":[1,2]},{"b":"1"}]}`,
+		"", rep(" ", 5000), rep(`"`, 3001), `{"a":"` + rep(`\`, 3001) + `"}`, `{"` + rep("a", 3000) + `":1}`, "null", "tru", "[,]", "{,}", `{"a"}`, `{"a":}`, "\x00", "]", "}",
+	}
+	paths := []string{"a", "a.a.a.a", rep("a.", 2000) + "a", "#", "a.#", "a.#.#", "a.0", "a.-1", "a.99999999999999999999", "@reverse", "@this", "@ugly", "@flatten",
+		"@valid", "@keys", "@values", "@join", "a|@reverse|@flatten", "a.#(b==1)", "a.#(b==1)#", "a.#(b==1)#.c.#", "a.#(#(#(", "a.#(", "#(", "@", "@x:", "@pretty:{", "*", rep("*a", 30) + "*b",
+		rep("?", 2000), `\`, rep(`\`, 2001), "..", "..a", "a..", ".", "", "{a,b}", "[a,b]", "{", "[", rep("{", 2000), rep("[", 2000), `{"x":a}`, "!a", "a.@tostr", "a.@fromstr", "@fromstr",
+		"@group", "@dig:a", "a.#(>1)#", `a.#(%"*")#`, `a.#(!%"` + rep("*a", 30) + `")#`, "\xff", "a\x00", "a.#(b=\"1\")#", "a.#(b>=1)#.b", "a.1.c.-1", "@pretty", "a.@pretty"}
+	n := 300
+	if tier == "thorough" {
+		n = len(docs) * len(paths)
+	}
+	var out []string
+	for i := 0; i < n; i++ {
+		d, p := Pick(r, docs), Pick(r, paths)
+		if tier == "thorough" {
+			d, p = docs[i/len(paths)], paths[i%len(paths)]
+		}
+		if strings.Contains(p, "@pretty") && len(d) > 2000 {
+			continue
+		}
+		var t string
+		el := []string{d, p}
+		switch r.Intn(4) {
+		case 0:
+			t = "{json {1}}"
+		case 1:
+			t = "{json {0} " + quoteArg(p) + "}"
+		case 2:
+			t = "{len {json {0} {1}}}"
+		default:
+			t = "{json {0} {1}}"
+		}
+		out = append(out, fmt.Sprintf("exprw 0 0 0 %s x %d %s %s %s", HexS(c08LoadFile("x")), r.Intn(2), HexS(t), HexListS(el), "."))
+	}
+	return out
 }
